@@ -6,7 +6,8 @@ from vprun import Run
 
 WB = ("c10", "internal/pkg/table", "^TestVerifC10$")
 API = ("c10srv", "pkg/server", "^TestVerifC10Srv$")
-STRICT, KF, CONF = "PolicyTrace.cfg", "PolicyTraceKF.cfg", "PolicyTraceConf.cfg"
+STRICT, CONF = "PolicyTrace.cfg", "PolicyTraceConf.cfg"
+KF = None      # no recorded finding is open: nothing is weakened
 
 
 def tiny(run, pool, workers):
@@ -101,36 +102,22 @@ def main(run: Run):
         judge(run, WB, behs, "tiny-" + pool, conf=CONF if thorough and pool != "c2x" else None)
 
     # 2. programs built by behaviours (config actions interleaved with Evaluate), white box.
-    #    The input shapes of the recorded findings are not generated here: strict invariants.
-    behs = simulate(run, "wb", 3000 if thorough else 300, 40 if thorough else 30, 8, False,
-                    "KFTriggersWb", s + 1, workers=w if thorough else 1)
+    #    All nine findings recorded while this check was built are repaired in /repo: nothing is
+    #    excluded from the generation any more (Avoid <- NoAvoid) and everything is judged strictly.
+    behs = simulate(run, "wb", 3000 if thorough else 400, 40 if thorough else 30, 8, False,
+                    "NoAvoid", s + 1, workers=w if thorough else 1)
     judge(run, WB, behs, "wb")
 
     # 3. config actions through the public API of a running server, read back after every step
-    behs = simulate(run, "api", 1000 if thorough else 100, 20 if thorough else 16, 0, True,
-                    "KFTriggersApi", s + 2, workers=w if thorough else 1)
+    behs = simulate(run, "api", 1000 if thorough else 150, 20 if thorough else 16, 0, True,
+                    "NoAvoid", s + 2, workers=w if thorough else 1)
     judge(run, API, behs, "api")
 
-    # 4. recorded findings.  (a) one directed schedule per finding and a few unrestricted random
-    #    ones, strict invariants: each rejection must be explained by the finding-specific
-    #    weakening (KNOWN-FINDING) or it is a violation.  (b) many unrestricted random schedules
-    #    judged directly with the weakened invariants: whatever they reject is a violation.
+    # 4. regression seeds: one directed schedule per repaired finding (spec/PolicySeeds.tla), on
+    #    both harnesses, strict invariants
     sd = seeds(run)
-    few = 12 if thorough else 0
-    rnd_wb = simulate(run, "wbkf", 600 if thorough else 120, 30, 8, False, "NoAvoid", s + 3,
-                      workers=w if thorough else 1)
-    rnd_api = simulate(run, "apikf", 300 if thorough else 60, 16, 0, True, "ApiAlways", s + 4,
-                       workers=w if thorough else 1)
-    # batch=1: a rejected trace costs one strict and one weakened TLC run, nothing is re-run
-    wb_sd = [b for b in sd if '"seed:api-readback' not in b]      # the API read-back seeds are judged on the API harness
-    judge(run, WB, wb_sd + rnd_wb[:few], "wbkf-strict", batch=1)
-    # over the API the multi-cut DeleteStatement kills the server process: not executed there
-    api_sd = [b for b in sd if '"seed:delstmt-multi"' not in b]
-    api_strict = [b for b in api_sd if '"seed:api-readback' in b or '"seed:delpol-assigned"' in b]
-    judge(run, API, (api_sd if thorough else api_strict) + rnd_api[:few], "apikf-strict", batch=1)
-    judge(run, WB, [b for b in sd if b not in wb_sd] + rnd_wb[few:], "wbkf", cfg=KF, known=None)
-    judge(run, API, ([] if thorough else [b for b in api_sd if b not in api_strict]) + rnd_api[few:], "apikf",
-          cfg=KF, known=None)
+    judge(run, WB, sd, "seeds-wb")
+    judge(run, API, sd, "seeds-api")
 
 
 RULE = ("(1) exhaustive: every tiny program of a pool (<= 2 statements, <= 2 conditions each, <= 1 modification, "
@@ -147,6 +134,6 @@ ASSUMPTIONS = [
     "the transcription of docs/sources/policy.md in Policy.tla (Eval) and the Go projections in harness/c10*",
     "where the document is silent both readings are accepted (AmbSpace) or the evaluation is not judged (und)",
     "AS_PATH conditions only in the shapes ^AS_ _AS$ _AS_ ^AS$; community conditions by exact value; no free-form regular expressions",
-    "recorded findings are tolerated only by their TLA+ predicates (PolicyTraceKF.cfg) and their input shapes are "
-    "excluded from the bulk generation (PolicyGen Avoid)",
+    "the nine findings recorded while the check was built are repaired in /repo (known_findings.jsonl: fixed); "
+    "nothing is weakened or excluded any more, their directed seeds run as strict regression seeds",
 ]
